@@ -25,7 +25,8 @@ EXTENDS Naturals, Integers, Sequences, FiniteSets, TLC, Json, IOUtils
 
 CONSTANTS P,          \* positions 0..P
           Precs,      \* precedences explored
-          NCands      \* number of candidates in a configuration
+          NCands,     \* number of candidates in a configuration
+          Enclosed    \* TRUE: the first candidate spans the whole text, parses its inside and encloses the others
 
 Spans == {sp \in [s : 0..P, e : 0..P, ps : 0..P, pe : 0..P] : sp.s < sp.e /\ sp.s <= sp.ps /\ sp.ps <= sp.pe /\ sp.pe <= sp.e}
 
@@ -62,9 +63,15 @@ Ordered(cs) == \A i \in 1..(Len(cs) - 1) : cs[i].s < cs[i + 1].s \/ (cs[i].s = c
 
 InShard(cs) == LET p == IOEnv.SHARD IN p = "-" \/ ToString(cs[1].s) \o ToString(cs[1].e) = p
 
+Whole == [s |-> 0, e |-> P, ps |-> 0, pe |-> P]
+CandSet(i) == {Cand(i, sp, pr, inn) : sp \in Spans, pr \in Precs, inn \in BOOLEAN}
+(* ordered pairs of candidates with ids k and k + 1 *)
+PairSet(k) == {<<x, y>> \in CandSet(k) \X CandSet(k + 1) : Ordered(<<x, y>>)}
+
 Init ==
-    /\ cands \in {cs \in [1..NCands -> UNION {{Cand(i, sp, pr, inn) : sp \in Spans, pr \in Precs, inn \in BOOLEAN} : i \in 1..NCands}] :
-                     (\A i \in 1..NCands : cs[i].id = i) /\ Ordered(cs) /\ InShard(cs)}
+    /\ cands \in IF Enclosed
+                 THEN {<<Cand(1, Whole, 5, TRUE), p[1], p[2]>> : p \in {q \in PairSet(2) : InShard(<<q[1]>>)}}
+                 ELSE {<<p[1], p[2]>> : p \in {q \in PairSet(1) : InShard(<<q[1]>>)}}
     /\ idx = 2 /\ prev = Node(cands[1]) /\ buffer = << >> /\ phase = "fold"
 
 Consume ==
@@ -127,8 +134,13 @@ Result == Flatten(buffer, 0)
 FoldWellTiled == phase = "done" => WellTiled(buffer)
 PairRule == (phase = "done" /\ Len(cands) = 2) => Result \in Stated(cands[1], cands[2])
 
+(* the same rule one level down: two candidates inside the parse group of an enclosing token that parses its inside *)
+Lift(o) == {<<1, 0>>} \cup {<<p[1], IF p[2] = 0 THEN 1 ELSE p[2]>> : p \in o}
+EnclosedRule == (phase = "done" /\ Enclosed /\ Len(cands) = 3) => Result \in {Lift(o) : o \in Stated(cands[2], cands[3])}
+
 Export == phase = "done" =>
     PrintT(ToJson([cands |-> cands,
                    model |-> {<<p[1], p[2]>> : p \in Result},
-                   stated |-> IF Len(cands) = 2 THEN Stated(cands[1], cands[2]) ELSE {}]))
+                   stated |-> IF Len(cands) = 2 THEN Stated(cands[1], cands[2])
+                              ELSE IF Enclosed /\ Len(cands) = 3 THEN {Lift(o) : o \in Stated(cands[2], cands[3])} ELSE {}]))
 =============================================================================
